@@ -9,7 +9,8 @@
 (***************************************************************************)
 EXTENDS MPGen, Json
 
-CONSTANTS MaxN,        \* list lengths range over 1..MaxN
+CONSTANTS MaxN,        \* list lengths range over MinLen..MaxN
+          MinLen,      \* (1 everywhere except in the long-list families)
           N1s, N2s, N3s,  \* candidate numbers of first-side / second-side / third-side agents
           NumInsts,    \* candidate -numinst values
           Perturb,     \* TRUE: also all single-fault perturbations
@@ -60,7 +61,7 @@ Legal(mp) ==
                  [] o = "llq" -> (IF mp = "spa" THEN lq3[1] ELSE NoVal)
                  [] o = "lt"  -> (IF mp = "spa" THEN lq3[2] ELSE NoVal)
                  [] o = "luq" -> (IF mp = "spa" THEN lq3[3] ELSE NoVal)]
-            : pm \in {pm \in (1 .. MaxN) \X (1 .. MaxN) : pm[1] <= pm[2] /\ pm[2] <= (IF mp = "sm" THEN n1 ELSE n2)},
+            : pm \in {pm \in (MinLen .. MaxN) \X (MinLen .. MaxN) : pm[1] <= pm[2] /\ pm[2] <= (IF mp = "sm" THEN n1 ELSE n2)},
               x \in X(fo), q \in Q(fo, n2), lq3 \in L3(fo, n3) }
           : fo \in Focus}
           : n3 \in (IF mp = "spa" THEN N3s ELSE {1})} : n2 \in (IF mp = "sm" THEN {1} ELSE N2s)} : n1 \in N1s}
